@@ -95,6 +95,11 @@ impl Worker for W {
         if self.optimize {
             opts.fail_pct = 0;
         }
+        // twin program: identical except that every record pattern is complete and in type order
+        let mut twin_rng = rng.clone();
+        let mut twin_opts = opts.clone();
+        twin_opts.canonical_record_patterns = true;
+        let twin = gen_program(&mut twin_rng, twin_opts);
         let g = gen_program(rng, opts);
         let (expect, _, steps) = run_reference(&g.program, 300_000, false);
         if let RefOutcome::Fail(Fail::Budget) = expect {
@@ -114,6 +119,7 @@ impl Worker for W {
             "size": g.program.body.as_ref().map_or(0, |b| b.size()), "ref_steps": steps, "gc_stress": stress,
             "style": format!("{:?}", style), "style_bits": style_bits,
             "ast": serde_json::to_value(&g.program).unwrap(),
+            "ast_twin": if twin.program != g.program { serde_json::to_value(&twin.program).unwrap() } else { Value::Null },
         }))
     }
 
@@ -140,7 +146,7 @@ impl Worker for W {
         // exactly the recursive-value feature is rewritten away (same meaning, rec function)?
         let mut neutralised: Option<&'static str> = None;
         let has = |f: &str| feats.iter().any(|x| x == f);
-        if has("rec-value") || has("tuple-projection-on-variable") || has("record-pattern") {
+        if has("rec-value") || has("tuple-projection-on-variable") || has("record-pattern") || !case["ast_twin"].is_null() {
             if let Ok(prog) = serde_json::from_value::<crate::lang::ast::Program>(case["ast"].clone()) {
                 let style = Style::from_bits(case["style_bits"].as_u64().unwrap_or(1) as u32);
                 let body = prog.body.clone().unwrap();
@@ -157,6 +163,13 @@ impl Worker for W {
                 }
                 if has("record-pattern") {
                     variants.push(("record-patterns-normalised", crate::lang::reduce::normalise_record_patterns(&body)));
+                }
+                if let Ok(tw) = serde_json::from_value::<crate::lang::ast::Program>(case["ast_twin"].clone()) {
+                    let tb = tw.body.clone().unwrap();
+                    variants.push(("record-patterns-complete-in-type-order", tb.clone()));
+                    let t2 = crate::lang::reduce::rec_values_as_functions(&tb);
+                    let t3 = crate::lang::reduce::tuple_projections_as_patterns(&t2, &prog.tuple_vars);
+                    variants.push(("all-known-rewrites", t3));
                 }
                 for (name, b2) in variants {
                     let mut p2 = prog.clone();
